@@ -577,6 +577,21 @@ theorem rotation_writes_confined (pre : String) : ∀ w ∈ rotationWrites pre, 
       simp
     · cases h
 
+/-- … also with a backup of the PGP-encrypted shares: the backup record lies under the namespace's prefix -/
+theorem rotation_backup_writes_confined (pre : String) : ∀ w ∈ rotationWritesBackup pre, pre.toList <+: w.2.toList := by
+  intro w hw
+  unfold rotationWritesBackup at hw
+  rcases List.mem_append.mp hw with h | h
+  · exact rotation_writes_confined pre w h
+  · simp only [List.mem_singleton] at h
+    subst h
+    simp [String.toList_append]
+
+/-- **Finding F92 (repaired)**: the backup under the bare key is the root namespace's `core/unseal-keys-backup` -/
+theorem rotation_backup_bare_cex :
+    ∃ w ∈ rotationWritesBackupBare "namespaces/u/", ¬ ("namespaces/u/".toList <+: w.2.toList) := by
+  refine ⟨("put", "core/unseal-keys-backup"), by decide, by decide⟩
+
 /-- the two writes that escaped before the repairs (findings F49 and F50): with a namespace prefix they land in the ROOT
 namespace's key space -/
 theorem rotation_writes_unprefixed_cex :
